@@ -43,4 +43,29 @@ TEXT = {
          'level': 'A crash-point quantifier is covered by a no-persistent-state argument: filelock.py contains no unlink/rename/pid-file/exists/atexit/signal machinery '
                   '(positive control must match on every run), the open mode has O_CREAT and not O_EXCL, and exclusion is established only by flock / msvcrt.locking on a process-owned descriptor.',
          'note': COMMON_NOTE + 'that the kernel releases the lock promptly on SIGKILL (trusted).'},
+ 'C04': {'ref': '4.D C04', 'technique': TECH + 'value provenance of the completed future, sweep typestate (pending -> swept) on all paths',
+         'level': 'In the batch task every completion inside the result loop must target the future registered under the yielded key of the same iteration; '
+                  'the isinstance(result, Exception) branch decides the completion kind; every path entry -> exit (normal and exc:Exception edges) '
+                  'passes the fan-out sweep or the missing-key sweep (or leaves the dict empty); answered futures leave the dict; callers await their key\'s future; '
+                  'the dispatcher spawns and never awaits a batch.',
+         'note': COMMON_NOTE + 'scheduling of the dispatcher task; outcomes for keys yielded twice / unknown keys (surface as a batch failure today - note).'},
+ 'C09': {'ref': '4.D C09', 'technique': 'static analysis: cancellation-sharing typestate (which awaits can cancel a shared future), control dependence of completions on done()',
+         'level': 'Task.cancel() cancels what the task awaits: every await of a future reachable through the retention cache must be behind asyncio.shield, '
+                  'every completion must be state-guarded or un-cancellable, and no raising completion may sit in the fan-out try. '
+                  'Today 2 + 4 + 1 obligations fail (known finding F7, reproduced); any new site is a fresh violation.',
+         'note': COMMON_NOTE + 'nothing material - the shape is the property; C09-R4 (eviction tied to the future) is evaluated only once R1 holds.'},
+ 'C10': {'ref': '4.D C10', 'technique': TECH + 'dominance of growth sites by the size guard, no-suspension, who-may-call for the batch function and semaphore, container-kind rules',
+         'level': 'Every growth of the batch list is dominated since the previous growth by len(list) < max_batch_size; the bulk growth is an islice bounded by max_batch_size - len(list) with no suspension after the guard; '
+                  'the only zero-length return is the tabled closed-loop branch; the batch function is called only inside async with <semaphore built from max_concurrent_batches>; '
+                  'asyncio.Queue + append/extend + one assembler in one dispatcher give FIFO; the bounded wait is wait_for(queue.get(), self.batch_timeout) whose TimeoutError ends the batch.',
+         'note': COMMON_NOTE + 'dispatch latency and who shares a batch in time (timer magnitudes).'},
+ 'C11': {'ref': '4.D C11', 'technique': TECH + 'atomic-section (no suspension between miss and store), must-pass-through eviction on all exits, def-use of the delay',
+         'level': 'No suspension point lies between the KeyError edge of the retention lookup and the store of the new future; only that path enqueues, with the same key and future; '
+                  'every exit after the enqueue (normal, exception, cancel) passes del/pop or call_later(self.retention_timeout, cache.pop, key); the hit path mutates nothing; default key is str(arg). '
+                  'The await of Queue.put is accepted as non-suspending only while the queue is constructed unbounded (re-checked on every run).',
+         'note': COMMON_NOTE + 'window lengths in time.'},
+ 'C15': {'ref': '4.D C15', 'technique': 'static analysis: set comparison partial-keywords vs keyword-only parameters over sibling decorators, def-use chains, registry shape',
+         'level': 'For the three option decorators the functools.partial returned for func=None must bind exactly the keyword-only options to the same-named parameters; '
+                  'each option is followed from the decorator through the constructor to its point of use; the per-loop registry is a WeakKeyDictionary keyed by get_running_loop() with atomic create-and-store.',
+         'note': COMMON_NOTE + '"behaves identically" as observable behaviour (follows only to the extent both forms then run the same code with the same bindings).'},
 }
